@@ -364,7 +364,29 @@ func errRule(c *core.Ctx, p *pduInfo) {
 		default:
 			if r.OpsSoFar > 0 {
 				bad = fmt.Sprintf("return at %s yields %q instead of the reader's sticky error", c.Prog.Pos(r.Pos), r.Detail)
+			} else {
+				// before the first read the only refusal understood is `if len(data) < K { return err }`; anything else (a
+				// negated or widened comparison, a test on content) can refuse images the encoder produces
+				bad = fmt.Sprintf("return at %s (%q) leaves the decoder before anything was read, under a condition that is not the length guard `len(data) < K`", c.Prog.Pos(r.Pos), r.Detail)
 			}
+		}
+	}
+	// the length guard must not exceed the smallest image the encoder can produce
+	if p.Dec.Guard >= 0 && p.Enc != nil && bad == "" {
+		min, known := 0, true
+		for _, o := range p.Enc.Flat() {
+			switch o.Kind {
+			case wire.INT, wire.FIX:
+				min += o.Width
+			case wire.CSTR:
+				min++
+			case wire.VAR, wire.LOOP, wire.TAIL:
+			default:
+				known = false
+			}
+		}
+		if known && p.Dec.Guard > int64(min) {
+			bad = fmt.Sprintf("the length guard refuses inputs shorter than %d octets but the encoder can produce an image of %d octets", p.Dec.Guard, min)
 		}
 	}
 	if len(p.Dec.Returns) == 0 {
